@@ -32,8 +32,8 @@ REGISTRY["C20"] = dict(
     note=_BOUNDED)
 
 REGISTRY["C02"] = dict(
-    modules=["harness.c02_crash"],
-    technique="CrossHair symbolic execution of real commit/cancel with a symbolic crash point over instrumented storage; z3 enumerates the feasible crash points",
+    modules=["harness.c02_crash", "harness.c02_names"],
+    technique="CrossHair symbolic execution of real commit/cancel with a symbolic crash point over instrumented storage; z3 enumerates the feasible crash points; z3 strings+regex decide the TOC/segment/temporary file-name grammar read from the live classes",
     text="The crash point (index of the storage operation replaced by process death) and the surviving prefix of open files are symbolic; "
          "CrossHair executes the real writer/TOC/codec/storage code once per feasible point and must confirm over all paths that the "
          "re-opened index is exactly old or new, is writable, and that the next commit leaves no orphaned segment files.",
